@@ -37,13 +37,14 @@ def run_shard(args):
 
 def minimise_hit(src, h):
     """ask the harness (fresh process, forked children per candidate) for the smallest failing history + title"""
-    obj = {"lang": h["lang"], "dns": h["dns"], "title": h["title"], "expect": h.get("expect"), "history": h["history"], "inst": h["inst"]}
+    obj = {"lang": h["lang"], "dns": h["dns"], "title": h["title"], "expect": h.get("expect"), "history": h["history"], "inst": h["inst"],
+           "api": h.get("api", "split"), "calls": h.get("calls") or []}
     out = dict(obj, kind=h["kind"], detail=h["detail"])
     try:
         rc, txt = core.run_impl("vt.harness.c12_impl", ["minimise"], src=src, input=json.dumps(obj), timeout=300)
         m = json.loads([ln for ln in txt.splitlines() if ln.startswith("{")][-1])
         if m.get("reproduced") and m.get("problems"):
-            out.update(lang=m["lang"], dns=m["dns"], title=m["title"], expect=m.get("expect"), history=m["history"], inst=m["inst"],
+            out.update(lang=m["lang"], dns=m["dns"], title=m["title"], expect=m.get("expect"), history=m["history"], inst=m["inst"], calls=m.get("calls") or [],
                        kind=m["problems"][0][0], detail=m["problems"][0][1])
     except Exception:  # noqa: BLE001   (the unminimised hit is still a hit)
         pass
@@ -52,6 +53,10 @@ def minimise_hit(src, h):
     if len(hist) > 1:
         out["history_note"] = ("   [handlers created in this process, in order: %s; the failing call is on handler #%d]"
                                % (", ".join("%s(%s)" % (e[0], e[1]) for e in hist), out["inst"]))
+    if out["calls"]:
+        shown = ", ".join("#%d.%s(%r, %d)" % (c[1], "get_fqname" if c[2] == "fq" else "splitname", c[3], c[4]) for c in out["calls"][:6])
+        out["history_note"] += ("   [earlier lookups on the handler, in order (%d): %s%s]"
+                                % (len(out["calls"]), shown, ", ..." if len(out["calls"]) > 6 else ""))
     return out
 
 
@@ -77,7 +82,13 @@ def check(run):
                 "that exercise the case tables (ß ŉ ǆ ǅ İ ı σ ς Σ ſ µ K ﬁ ǰ U+0345, non-BMP, random code points of cased blocks); "
                 "prefix-less titles; 'wild' mixes of name fragments, colons and marks; 12 sites x default namespaces {0,6,10,14}; every "
                 "canonical full name produced by the real code is fed back under each default namespace.  Spaces are written as runs "
-                "of 1..9 ' '/'_'.  SEVERAL NsHandler OBJECTS OF DIFFERENT SITES LIVE IN ONE PROCESS: each of the 8 (16) harness "
+                "of 1..9 ' '/'_'.  HISTORIES OF LOOKUPS ON ONE HANDLER: per shard max(60, groups/2) sequences of 2-8 splitname/get_fqname "
+                "calls on one handler (new or living) that share one or two prefixes (a text that is no namespace anywhere such as "
+                "'Star Trek', a namespace name of another site, a name/alias of this site; letter case varied), every call with its "
+                "own default namespace from {0,6,10,14,1,2,4,12} in random order; EVERY evaluation of the run is also compared with the "
+                "answer of a handler just made from the same siteinfo (history independence).  Every lookup on every handler is "
+                "logged, so a hit carries the lookups made before on that handler (and on the handlers it was pickled from) and is "
+                "minimised to the shortest sequence that still fails.  SEVERAL NsHandler OBJECTS OF DIFFERENT SITES LIVE IN ONE PROCESS: each of the 8 (16) harness "
                 "processes first creates and uses handlers of all 12 sites in a shard-dependent order (odd shard = reverse of the "
                 "even one, so every pair of sites is set up in both orders), later further handlers (constructor, deep copy, "
                 "get_nshandler_for_lang, pickle round trip); every shard sweeps EVERY (site, namespace name of ANY bundled site) and "
@@ -143,14 +154,16 @@ def check(run):
         fp = "%s:%s:%d:%s" % (m["kind"], m["lang"], m["dns"], m["title"])
         if len(m["history"]) > 1:
             fp += ":after:" + ",".join(e[0] for e in m["history"])
-        anysite = (m["kind"], m["dns"], m["title"]) if len(m["history"]) <= 1 else fp
+        if m["calls"]:
+            fp += ":after-lookups:" + ";".join("%s/%d" % (c[3], c[4]) for c in m["calls"][:4])
+        anysite = (m["kind"], m["dns"], m["title"], json.dumps(m["calls"])) if len(m["history"]) <= 1 else fp
         if fp in seen_fp or anysite in seen_fp:
             continue              # the same minimal title fails on another site too: one report
         seen_fp.add(fp)
         seen_fp.add(anysite)
         run.hit(fingerprint=fp, what="%s: site %s: %s%s" % (m["kind"], m["lang"], m["detail"], m["history_note"]),
                 replay={"lang": m["lang"], "dns": m["dns"], "title": m["title"], "expect": m.get("expect"),
-                        "history": m["history"], "inst": m["inst"], "title_codepoints": [ord(c) for c in m["title"]],
+                        "history": m["history"], "inst": m["inst"], "api": m["api"], "calls": m["calls"], "title_codepoints": [ord(c) for c in m["title"]],
                         "found_as": {"title": h["title"], "dns": h["dns"], "handlers_in_process": len(h["history"]),
                                      "group": h["group"]}})
     dist["raw_monitor_hits"] = len(raw_hits)
